@@ -91,12 +91,40 @@ def gen(seed, tier):
     return cases
 
 
+def gen_sapi(seed, tier):
+    """direct ready-queue API scenarios (engine sapi): throwing callbacks under install_queue_and_call / create_suspend_point,
+    suspend points merged by assignment"""
+    rng = random.Random(seed * 577 + 55)
+    cases = []
+    i = 0
+    for op in (1, 2):
+        for n in (0, 1, 2, 3, 4, 7, 12):
+            cases.append(Case("sapi", "t%d" % i, [L(op, n, 0), L(op, n, 1), L(op, n, 0)])); i += 1
+    for n1 in (0, 1, 2, 4):
+        for n2 in (0, 1, 3, 5):
+            cases.append(Case("sapi", "m%d" % i, [L(3, n1, n2, 0), L(3, n1, n2, 1)])); i += 1
+    for _ in range(15 if tier == "quick" else 150):
+        ops = []
+        for _ in range(rng.randint(2, 8)):
+            k = rng.choice([1, 2, 3])
+            ops.append(L(k, rng.randint(0, 12), rng.randint(0, 1)) if k < 3 else L(3, rng.randint(0, 8), rng.randint(0, 8), rng.randint(0, 1)))
+        if rng.random() < 0.2: ops.insert(rng.randrange(len(ops) + 1), rng.choice([L(1, 13, 0), L(3, 1, 9, 0), L(4), L(2, 1, 2)]))
+        cases.append(Case("sapi", "r%d" % i, ops)); i += 1
+    return cases
+
+
 def nontrivial(case, model_obs):
+    if case.engine == "sapi":
+        return any(len(l.split()) > 5 for l in model_obs)
     return len(events(model_obs, 5)) >= 1 and len(events(model_obs, 1)) >= 3
 
 
 def signature(case, impl_obs, model_obs):
     last = impl_obs[-1] if impl_obs else ""
+    if case.engine == "sapi":
+        if last.startswith("CRASH"):
+            return "sapi:" + (last.split()[1] if len(last.split()) > 1 else "crash")
+        return "sapi:" + (last if last in ("HANG", "MISSING") else "oracle")
     if last.startswith("CRASH"):
         return "vm5:" + (last.split()[1] if len(last.split()) > 1 else "crash")
     if last in ("HANG", "MISSING"):
@@ -109,4 +137,5 @@ def signature(case, impl_obs, model_obs):
     return "vm5:oracle"
 
 
-PARTS = [{"name": "vm", "harness": "vm.cpp", "gen": gen, "timeout_case": 10}]
+PARTS = [{"name": "vm", "harness": "vm.cpp", "gen": gen, "timeout_case": 10},
+         {"name": "sapi", "harness": "seq_sched.cpp", "gen": gen_sapi, "timeout_case": 10}]
